@@ -4,13 +4,18 @@
 //!
 //!   hv <compact> <digest> <parent_known 0|1> <parent_number> <number> <parent_epoch> <epoch> <nonce>
 //!        -> ok | invalid-nonce | unknown-parent | number | epoch-malformed | epoch-noncontinuous | fail
+//!   ts <timestamp> <t1,t2,..>   -> ok | too-old      the TimestampVerifier inside the real HeaderVerifier:
+//!        the list is the timestamps of the parent and its ancestors, most recent first (at most
+//!        median_time_block_count = 37, ending at block 0 when shorter); everything else in the header valid
+//!   gbe <hdr_number> <start> <len> <tu_hdr> <tu_prev> <ts_hdr> <ts_prev> -> nontail | tail <uncles> <ms> | fail
+//!        the default method EpochProvider::get_block_epoch on a provider that stores exactly these values
 //! The digest token is the eaglesong digest of the real header's PoW message (recomputed on replay).
 //! Timestamps are kept valid (parent median time < header time <= now), so the TimestampVerifier
 //! that runs last never rejects; any other error kind is reported as `other` (a model difference).
 use crate::common::*;
 use ckb_chain_spec::consensus::{Consensus, ConsensusBuilder};
 use ckb_pow::Pow;
-use ckb_traits::{HeaderFields, HeaderFieldsProvider};
+use ckb_traits::{BlockEpoch, EpochProvider, HeaderFields, HeaderFieldsProvider};
 use ckb_types::{
     U256,
     core::{EpochNumberWithFraction, HeaderView},
@@ -110,6 +115,146 @@ fn op_hv(out: &mut Out, consensus: &Consensus, compact: u32, nonce: u128, known:
     }
 }
 
+struct ChainProvider {
+    /// ancestors, parent first: (timestamp, number)
+    anc: Vec<(u64, u64)>,
+}
+
+fn anc_hash(j: usize) -> Byte32 {
+    let mut b = [0u8; 32];
+    b[..8].copy_from_slice(&(j as u64 + 1).to_le_bytes());
+    b[31] = 0xa7;
+    Byte32::from_slice(&b).unwrap()
+}
+
+impl HeaderFieldsProvider for ChainProvider {
+    fn get_header_fields(&self, hash: &Byte32) -> Option<HeaderFields> {
+        let j = u64::from_le_bytes(hash.as_slice()[..8].try_into().unwrap()) as usize - 1;
+        let (ts, number) = *self.anc.get(j)?;
+        Some(HeaderFields { hash: hash.clone(), number, epoch: EpochNumberWithFraction::from_full_value_unchecked(0), timestamp: ts, parent_hash: anc_hash(j + 1) })
+    }
+}
+
+fn op_ts(out: &mut Out, consensus: &Consensus, t: u64, prev: &[u64]) {
+    assert!(!prev.is_empty() && prev.len() <= consensus.median_time_block_count());
+    let m = consensus.median_time_block_count();
+    // shorter than the window: the oldest listed ancestor is block 0, where the walk stops
+    let base = if prev.len() < m { 0 } else { 1_000 };
+    let anc: Vec<(u64, u64)> = prev.iter().enumerate().map(|(j, ts)| (*ts, base + (prev.len() - 1 - j) as u64)).collect();
+    let number = anc[0].1 + 1;
+    let provider = ChainProvider { anc };
+    let mut nonce = 0u128;
+    let header = loop {
+        let raw = packed::RawHeader::new_builder().compact_target(0x20ff_ffffu32).number(number).epoch(pack(0, 0, 1)).timestamp(t).parent_hash(anc_hash(0)).build();
+        let h = packed::Header::new_builder().raw(raw).nonce(nonce).build();
+        if consensus.pow_engine().verify(&h) {
+            break h.into_view();
+        }
+        nonce += 1;
+    };
+    let res = catch_unwind(AssertUnwindSafe(|| HeaderVerifier::new(&provider, consensus).verify(&header)));
+    let ans = match &res {
+        Err(_) => "fail",
+        Ok(Ok(())) => "ok",
+        Ok(Err(e)) => match e.downcast_ref::<HeaderError>() {
+            Some(he) if he.kind() == HeaderErrorKind::Timestamp && !he.is_too_new() => "too-old",
+            _ => "other",
+        },
+    };
+    let list: Vec<String> = prev.iter().map(|x| x.to_string()).collect();
+    out.op(&format!("ts {} {}", t, list.join(",")), ans);
+    out.count(&format!("ts-{ans}"));
+    // property side: accepted iff strictly above the median (element len/2 of the sorted window)
+    let mut sorted = prev.to_vec();
+    sorted.sort_unstable();
+    if (ans == "ok") != (t > sorted[sorted.len() / 2]) {
+        out.oracle_fail("timestamp-median-rule", &format!("t={t} prev={}", list.join(",")));
+    }
+}
+
+struct StatsProvider {
+    epoch: ckb_types::core::EpochExt,
+    hdr_hash: Byte32,
+    tu_h: u64,
+    tu_p: u64,
+    ts_p: u64,
+}
+
+impl EpochProvider for StatsProvider {
+    fn get_epoch_ext(&self, _h: &HeaderView) -> Option<ckb_types::core::EpochExt> {
+        Some(self.epoch.clone())
+    }
+    fn get_block_hash(&self, number: u64) -> Option<Byte32> {
+        if number == 0 { Some(anc_hash(7)) } else { None }
+    }
+    fn get_block_ext(&self, hash: &Byte32) -> Option<ckb_types::core::BlockExt> {
+        let tu = if *hash == self.hdr_hash { self.tu_h } else { self.tu_p };
+        Some(ckb_types::core::BlockExt { received_at: 0, total_difficulty: U256::zero(), total_uncles_count: tu, verified: None, txs_fees: vec![], cycles: None, txs_sizes: None })
+    }
+    fn get_block_header(&self, _hash: &Byte32) -> Option<HeaderView> {
+        let raw = packed::RawHeader::new_builder().timestamp(self.ts_p).build();
+        Some(packed::Header::new_builder().raw(raw).build().into_view())
+    }
+    // get_block_epoch: the default method under test
+}
+
+#[allow(clippy::too_many_arguments)]
+fn op_gbe(out: &mut Out, genesis_epoch: bool, hn: u64, start: u64, len: u64, tu_h: u64, tu_p: u64, ts_h: u64, ts_p: u64) {
+    let raw = packed::RawHeader::new_builder().number(hn).timestamp(ts_h).build();
+    let header = packed::Header::new_builder().raw(raw).build().into_view();
+    let epoch = ckb_types::core::EpochExt::new_builder()
+        .number(if genesis_epoch { 0 } else { 3 })
+        .start_number(start)
+        .length(len)
+        .last_block_hash_in_previous_epoch(anc_hash(7))
+        .build();
+    let provider = StatsProvider { epoch, hdr_hash: header.hash(), tu_h, tu_p, ts_p };
+    let res = catch_unwind(AssertUnwindSafe(|| provider.get_block_epoch(&header)));
+    let ans = match res {
+        Err(_) => "fail".to_string(),
+        Ok(None) => "none".to_string(),
+        Ok(Some(BlockEpoch::NonTailBlock { .. })) => "nontail".to_string(),
+        Ok(Some(BlockEpoch::TailBlock { epoch_uncles_count, epoch_duration_in_milliseconds, .. })) => format!("tail {} {}", epoch_uncles_count, epoch_duration_in_milliseconds),
+    };
+    let line = format!("gbe {hn} {start} {len} {tu_h} {tu_p} {ts_h} {ts_p}");
+    out.op(&line, &ans);
+    out.count(&format!("gbe-{}", ans.split(' ').next().unwrap()));
+    let is_tail = start.checked_add(len).and_then(|s| s.checked_sub(1)) == Some(hn);
+    if is_tail && tu_p <= tu_h {
+        if ts_p <= ts_h {
+            if ans != format!("tail {} {}", tu_h - tu_p, ts_h - ts_p) {
+                out.oracle_fail("epoch-stats-wrong", &line);
+            }
+        } else if ans == "fail" {
+            // C07: "for any previous-epoch statistics ... arithmetic stays within spec" — here the
+            // duration subtraction panics instead (timestamps are only bounded below by the past median)
+            out.oracle_fail("epoch-duration-underflow-panics", &format!("{line}: the epoch's last block is older than the previous epoch's last block; `header.timestamp() - prev.timestamp()` panics (traits/src/epoch_provider.rs)"));
+        }
+    }
+}
+
+/// timestamps of a chain (oldest first) that passes the 37-block median rule although block 337 (last of a
+/// 300-block epoch) is older than block 37 (last of the previous epoch) — same list as the Lean witness
+fn decreasing_epoch_end_chain() -> Vec<u64> {
+    let mut v: Vec<u64> = (1..=37).collect();
+    v.push(1_000_000);
+    v.extend(38..=337);
+    v
+}
+
+fn scenario_ts_chain(out: &mut Out, consensus: &Consensus) {
+    let ts = decreasing_epoch_end_chain();
+    out.begin_case("ts-chain: valid timestamps, epoch end older than previous epoch end");
+    let m = consensus.median_time_block_count();
+    for i in 1..ts.len() {
+        let lo = i.saturating_sub(m);
+        let prev: Vec<u64> = ts[lo..i].iter().rev().copied().collect();
+        op_ts(out, consensus, ts[i], &prev);
+    }
+    // epoch k+1 = blocks 38..=337; the last block of epoch k is block 37
+    op_gbe(out, false, 337, 38, 300, 0, 0, ts[337], ts[37]);
+}
+
 fn pack(n: u64, i: u64, l: u64) -> u64 {
     EpochNumberWithFraction::new_unchecked(n, i, l).full_value()
 }
@@ -130,6 +275,14 @@ pub fn run(opts: &Opts) {
                 "hv" => {
                     let p = |s: &str| u64::from_str_radix(s.trim_start_matches("0x"), if s.starts_with("0x") { 16 } else { 10 }).expect("number");
                     op_hv(&mut out, &consensus, p(t[1]) as u32, u128::from_str_radix(t[8].trim_start_matches("0x"), 16).expect("nonce"), p(t[3]) != 0, p(t[4]), p(t[5]), p(t[6]), p(t[7]));
+                }
+                "ts" => {
+                    let prev: Vec<u64> = t[2].split(',').map(|x| x.parse().expect("timestamp")).collect();
+                    op_ts(&mut out, &consensus, t[1].parse().expect("timestamp"), &prev);
+                }
+                "gbe" => {
+                    let p = |s: &str| s.parse::<u64>().expect("number");
+                    op_gbe(&mut out, false, p(t[1]), p(t[2]), p(t[3]), p(t[4]), p(t[5]), p(t[6]), p(t[7]));
                 }
                 other => panic!("unknown op {other}"),
             }
@@ -192,5 +345,49 @@ pub fn run(opts: &Opts) {
             op_hv(&mut out, &consensus, compact, nonce, known, pn, hn, pe, he);
         }
     }
+    // --- timestamp rule and epoch statistics --------------------------------------------------
+    out.begin_case("timestamps");
+    for _ in 0..300 * k {
+        let len = match rng.below(4) {
+            0 => rng.range(1, 5) as usize,
+            1 => 37,
+            _ => rng.range(1, 37) as usize,
+        };
+        let base = rng.range(1_000, 1_000_000_000);
+        let prev: Vec<u64> = (0..len).map(|_| if rng.chance(1, 6) { base } else { base + rng.below(50) }).collect();
+        let mut sorted = prev.clone();
+        sorted.sort_unstable();
+        let med = sorted[len / 2];
+        let t = match rng.below(5) {
+            0 => med,
+            1 => med + 1,
+            2 => med.saturating_sub(1),
+            3 => sorted[(len - 1) / 2],
+            _ => base + rng.below(60),
+        };
+        op_ts(&mut out, &consensus, t, &prev);
+    }
+    out.begin_case("epoch-stats");
+    for _ in 0..1000 * k {
+        let len = rng.range(1, 2000);
+        let start = if rng.chance(1, 20) { u64::MAX - len - rng.below(2) + 1 } else { rng.range(0, 1 << 40) };
+        let tail = start.wrapping_add(len).wrapping_sub(1);
+        let hn = match rng.below(5) {
+            0 => tail.wrapping_sub(1),
+            1 => start,
+            2 => tail.wrapping_add(1),
+            _ => tail,
+        };
+        let tu_p = rng.below(1 << 30);
+        let tu_h = tu_p + if rng.chance(1, 4) { 0 } else { rng.below(4000) };
+        let ts_p = rng.range(1, 1 << 41);
+        let ts_h = ts_p + match rng.below(4) {
+            0 => 0,
+            1 => 1,
+            _ => rng.below(100_000_000),
+        };
+        op_gbe(&mut out, rng.chance(1, 4), hn, start, len, tu_h, tu_p, ts_h, ts_p);
+    }
+    scenario_ts_chain(&mut out, &consensus);
     out.finish(rule);
 }
